@@ -169,6 +169,22 @@ class InitFlow:
                     defined.update(d2)
                 elif x.get("else_status") in ("exit", "return") and x.get("then_status") not in ("exit", "return"):
                     defined.update(d1)
+                elif self._nonempty and x.get("cond") is not None and x["cond"][0] == "op":
+                    # `if (n > 0) fill(buf)` for a buffer of n elements: when the test fails the buffer is empty and nothing of it
+                    # can be read, so for that buffer the guarded writes count as unconditional
+                    c_ = x["cond"]
+                    for rk_, sz in self._nonempty.items():
+                        pos = (c_[1] in (">", "!=") and c_[2] == sz and c_[3] == ZERO) or (c_[1] == ">=" and c_[2] == sz and c_[3] == sym.I(1)) \
+                            or (c_[1] == "<" and c_[3] == sz and c_[2] == ZERO) or (c_[1] == "<=" and c_[3] == sz and c_[2] == sym.I(1))
+                        neg = (c_[1] in ("<=", "==") and c_[2] == sz and c_[3] == ZERO) or (c_[1] == "<" and c_[2] == sz and c_[3] == sym.I(1))
+                        src = d1 if pos else d2 if neg else None
+                        if src is not None:
+                            for k in src:
+                                if k[0] == rk_:
+                                    defined[k] = True
+                    for k in d1:
+                        if k in d2:
+                            defined[k] = True
                 elif inloop:
                     # inside a loop a conditional write may have happened in an earlier iteration (ping-pong buffers written only
                     # when a step is taken, read back only when one was): generous, like the loop itself
@@ -396,6 +412,7 @@ class InitFlow:
 
     # ------------------------------------------------------------------ locals of one function
     _valsets = {}
+    _nonempty = {}
 
     @staticmethod
     def _pointer_value_sets(eff):
@@ -426,6 +443,7 @@ class InitFlow:
         v = self.v
         eff, st, ex = run_function(v, f, hooks=Hooks())
         objs = {}
+        sizes_ = {}
         for x in flat(eff):
             if x["e"] == "call" and x.get("ret") is not None and x["ret"][0] == "obj":
                 m = re.match(r"^new_(\w+?)(_array)?$", x["name"])
@@ -437,6 +455,7 @@ class InitFlow:
                     objs[x["ret"]] = (None, "%s(...)" % x["name"], x["l"], {()})
             elif x["e"] == "alloc" and x["how"] == "new[]" and DATA_T.match(str(x.get("t", ""))) and not x.get("init"):
                 objs[x["obj"]] = (None, "new %s[...]" % x.get("t"), x["l"], {()})
+                sizes_[x["obj"]] = x.get("size")
             elif x["e"] == "localarray" and DATA_T.match(str(x.get("t", ""))) and not x.get("init"):
                 objs[x["lv"]] = (None, "%s[...]" % x.get("t"), x["l"], {()})
         if not objs:
@@ -445,6 +464,7 @@ class InitFlow:
         first = {rk: {} for rk in roots.values()}
         events = []
         self._valsets = self._pointer_value_sets(eff)
+        self._nonempty = {roots[o]: sz for o, sz in sizes_.items() if sz is not None and o in roots}
         self._extents = {}
         for x in flat(eff):
             if x["e"] == "localarray" and x["lv"] in roots and sym.const_value(x.get("extent")) is not None:
